@@ -74,7 +74,9 @@ def generate(seed, tier):
             if r.random() < 0.5 and live:
                 op["stopped"].append(["unregister", live.pop(r.randrange(len(live)))])
             if r.random() < 0.4:
-                op["stopped"].append(["register", N_REG + 1])
+                # (on a line of its own, or on the line of a registration that is live: refusing the newcomer must not
+                # cost the one that is there)
+                op["stopped"].append(["register", N_REG + 1, r.choice(live) if live and r.random() < 0.6 else None])
             ops.append(op)
         elif k < 0.75:
             # odd-type: an answer that decodes, of a response type this client does not know (no hash, no tracepoints)
@@ -98,7 +100,7 @@ def generate(seed, tier):
         if r.random() < 0.3:
             ops.append({"op": "restart", "inflight": True, "delay": r.choice((0.5, 3.0)), "cfg": 3, "gap": 0.0,
                         "tps": sorted(r.sample(range(1, N_SVC + 1), r.randrange(0, 3))),
-                        "stopped": [["register", N_REG + 1]] if r.random() < 0.5 else []})
+                        "stopped": [["register", N_REG + 1, None]] if r.random() < 0.5 else []})
         else:
             ops.append({"op": "register", "reg": 1, "at_poll": True})
     knobs = common.race_knobs(r, stall_p=r.choice((0.0, 0.0005, 0.003)), stall_ns=[10_000_000, 2_000_000_000])
@@ -217,6 +219,7 @@ def execute(s, ch):
         w.start()
         handles = {}
         live_regs = set()
+        shared_lines = set()
         # an application thread that keeps running through the probe lines while the configuration changes under it
         # (its effects are not judged; what it may leave behind in the handler is, by the final probe)
         prober_stop = {"v": False}
@@ -329,13 +332,18 @@ def execute(s, ch):
                     viol.append(V("shutdown-raised:%s" % type(e).__name__, repr(e)))
                 k.sleep(o.get("gap", 0.0))
                 again = []
-                for what, reg in o.get("stopped", ()):
+                for st in o.get("stopped", ()):
+                    what, reg = st[0], st[1]
                     # a stopped agent may refuse these (visibly); what it must not do is half apply them
                     try:
                         if what == "register":
-                            handles[reg] = w.deep.register_tracepoint(p.basename, 1 + N_SVC + reg,
+                            on = st[2] if len(st) > 2 and st[2] in live_regs else reg
+                            handles[reg] = w.deep.register_tracepoint(p.basename, 1 + N_SVC + on,
                                                                       {"fire_count": "-1", "fire_period": "0"}, [])
-                            live_regs.add(reg)
+                            if on != reg:
+                                shared_lines.add(on)     # (accepted: a second registration, never removed, on that line)
+                            else:
+                                live_regs.add(on)
                         elif handles.get(reg) is not None:
                             handles[reg].unregister()
                             live_regs.discard(reg)
@@ -381,7 +389,7 @@ def execute(s, ch):
         active = sorted({es.tracepoint.id if es.tracepoint.id.startswith("svc") else "reg@%d" % es.tracepoint.line_no
                          for (_, _, es) in w.pushed[n0:]})
         exp_svc = delivered[-1][2] if delivered else []
-        expected = sorted(set(exp_svc) | {"reg@%d" % (1 + N_SVC + r_) for r_ in live_regs})
+        expected = sorted(set(exp_svc) | {"reg@%d" % (1 + N_SVC + r_) for r_ in live_regs | shared_lines})
         info["updates"] = len(delivered)
         info["final"] = (active, expected)
         k.log("final", active, expected, [d[1] for d in delivered])
